@@ -237,6 +237,9 @@ func (e *exitStatus) fromHandlerError(err error) {
 	if exit, ok := errors.AsType[errBuiltinExitStatus](err); ok {
 		*e = exitStatus(exit)
 	} else if es, ok := errors.AsType[ExitStatus](err); ok {
+		if es == 0 {
+			return // an odd way for a handler to report success
+		}
 		e.err = err
 		e.code = uint8(es)
 	} else {
